@@ -32,6 +32,7 @@ def plan(tier, seed):
     shards += [{"kind": "currencies"}]
     shards += [{"kind": "reports", "seed": seed, "shard": i, "n": 100} for i in range(k // 2)]
     shards += [{"kind": "cli", "seed": seed, "shard": i, "n": 10} for i in range(8 if tier == "quick" else 120)]
+    shards += [{"kind": "mcp", "seed": seed, "shard": i, "n": 25} for i in range(2 if tier == "quick" else 40)]
     return shards
 
 
@@ -278,7 +279,84 @@ def run_cli(desc):
     return {"evaluations": cnt["cli_ledgers"] * 2, "nontrivial_hashes": hashes, "counters": cnt, "violations": viols[:20], "samples": []}
 
 
+def run_mcp(desc):
+    """MCP: parse_transactions(DSL) -> JSON -> convert_to_dsl -> DSL' reproduces the list; calculate_report on the
+    DSL rendering and on the JSON rendering give the same answer, equal to the library's JSON report."""
+    from ..mcpdrv import Session, call, check_history
+    rng = rng_for(PROP, desc["seed"], "mcp", desc["shard"])
+    cnt = Counter()
+    viols = []
+    hashes = set()
+    p = probe()
+    sess = Session()
+    items = []
+    rid = 0
+    for _ in range(desc["n"]):
+        l, _f = gen_ledger(rng, Opts(capital=True, splits=True, n_sec=(1, 2), steps=(2, 7), currencies=["USD", "EUR"],
+                                     start=(dt.date(2016, 1, 1), dt.date(2024, 1, 1)), last_date=dt.date(2026, 3, 1)))
+        dsl = p.one({"op": "to_dsl", "txs": l})["ok"]
+        js = p.one({"op": "json_ser", "txs": l})["ok"]
+        ids = {}
+        for name, tool, text in (("parse_dsl", "parse_transactions", dsl), ("parse_json", "parse_transactions", js),
+                                 ("to_dsl", "convert_to_dsl", js), ("calc_dsl", "calculate_report", dsl),
+                                 ("calc_json", "calculate_report", js)):
+            rid += 1
+            ids[name] = rid
+            sess.send([call(rid, tool, {"transactions": text})])
+        items.append((l, ids))
+    allids = [i for _, ids in items for i in ids.values()]
+    sess.wait_for(allids, 180)
+    end = sess.finish()
+    hv, stats, resp = check_history(sess, end)
+    for name, detail in hv:
+        viols.append({"clause": "mcp-" + name, "signature": "mcp-" + name, "detail": detail, "case": {"op": "mcp"}})
+
+    def text_of(i):
+        a = resp.get(Session.idkey(i))
+        try:
+            return a["result"]["content"][0]["text"]
+        except Exception:
+            return None
+    for l, ids in items:
+        cnt["mcp_ledgers"] += 1
+        hashes.add(sha(l)[:16])
+        case = {"op": "roundtrip", "txs": l}
+        for name in ("parse_dsl", "parse_json"):
+            t = text_of(ids[name])
+            back = p.one({"op": "json_de", "text": t or ""})
+            if t is None or "ok" not in back or len(back["ok"]) != len(l) or any(same_tx(x, y) for x, y in zip(l, back["ok"])):
+                viols.append({"clause": "mcp-parse-changes-transactions", "signature": "mcp-parse-changes-transactions:" + name,
+                              "detail": str(resp.get(Session.idkey(ids[name])))[:200], "case": case})
+            else:
+                cnt["mcp_parse_roundtrips"] += 1
+        t = text_of(ids["to_dsl"])
+        back = p.one({"op": "parse", "text": t or ""})
+        if t is None or "ok" not in back or len(back["ok"]) != len(l) or any(same_tx(x, y) for x, y in zip(l, back["ok"])):
+            viols.append({"clause": "mcp-convert-to-dsl-changes-transactions", "signature": "mcp-convert-to-dsl-changes-transactions",
+                          "detail": str(t)[:200], "case": case})
+        else:
+            cnt["mcp_convert_roundtrips"] += 1
+        a, b = text_of(ids["calc_dsl"]), text_of(ids["calc_json"])
+        lib = p.one(dict(lc.calc_case(l, fx="bundled", exemptions=lc.ALL_YEARS), outputs=["json"]))
+        if (a is None) != (b is None) or (a is not None and json.loads(a) != json.loads(b)):
+            viols.append({"clause": "mcp-report-differs-between-dsl-and-json-input", "signature": "mcp-report-differs-between-dsl-and-json-input",
+                          "detail": "", "case": case})
+        if ("ok" in lib) != (a is not None):
+            viols.append({"clause": "mcp-report-acceptance-differs-from-library", "signature": "mcp-report-acceptance-differs-from-library",
+                          "detail": str(lib.get("err"))[:150], "case": case})
+        elif a is not None:
+            want = json.loads(lib["ok"]["json"])
+            got = json.loads(a)
+            if got["tax_years"] != want["tax_years"] or got["holdings"] != want["holdings"]:
+                viols.append({"clause": "mcp-report-differs-from-library", "signature": "mcp-report-differs-from-library", "detail": "", "case": case})
+            else:
+                cnt["mcp_reports_equal_library"] += 1
+    return {"evaluations": len(allids), "nontrivial_hashes": hashes, "counters": cnt, "violations": viols[:20], "samples": []}
+
+
 def run_shard(desc):
+    if desc["kind"] == "mcp":
+        return run_mcp(desc)
     return {"lists": run_lists, "currencies": run_currencies, "reports": run_reports, "cli": run_cli}[desc["kind"]](desc)
 
 
@@ -305,7 +383,8 @@ def finalize(total, tier, seed):
 
 
 THRESHOLDS = {"lists": 1500, "currency_codes": 150, "report_pairs_dsl": 500, "report_pairs_json": 500,
-              "scale_28": 50, "scale_00": 500, "kind_UNSPLIT": 300, "cli_reports_compared": 20}
+              "scale_28": 50, "scale_00": 500, "kind_UNSPLIT": 300, "cli_reports_compared": 20,
+              "mcp_parse_roundtrips": 60, "mcp_reports_equal_library": 20}
 RULE = ("random transaction lists of all seven kinds (decimal literals of every scale 0-28 incl. the 96-bit maximum, "
         "trailing zeros and 1e-28; every known currency code; keyword-/number-/currency-looking tickers; years "
         "0001-9999; zero and non-zero optional clauses) through to_dsl->parse, to_json->from_json and the idempotence "
